@@ -287,7 +287,7 @@ func runC20(c *h.Ctx, idx int, events bool) {
 		}
 		sel2 = tree.selected(inc2, exc2, false)
 	}
-	slowCtx := events && r.Chance(25)
+	slowCtx := events && r.Chance(40)
 	w := gen.OM{{K: "watch", V: inc}, {K: "task", V: "t"}}
 	if len(exc) > 0 {
 		w.Set("exclude", exc)
@@ -531,6 +531,24 @@ func runC20(c *h.Ctx, idx int, events bool) {
 		case "rename":
 			os.Rename(full, full+".renamed")
 			dead[target] = true
+		}
+		if slowCtx && k == 0 && len(watched) >= 2 && (op.Kind == "append" || op.Kind == "chmod") {
+			// a second event on another file while the run for the first one is still in the context's
+			// before-hook: every run must still report its own event
+			other := watched[0]
+			if other == target {
+				other = watched[1]
+			}
+			time.Sleep(1100 * time.Millisecond)
+			if op.Kind == "append" {
+				if f, err := os.OpenFile(real+"/"+other, os.O_APPEND|os.O_WRONLY, 0o644); err == nil {
+					f.WriteString("more\n")
+					f.Close()
+				}
+			} else {
+				os.Chmod(real+"/"+other, 0o640)
+			}
+			c.Count("overlapping_event_pairs", 1)
 		}
 		time.Sleep(300 * time.Millisecond) // let the reference observer drain
 		refMu.Lock()
